@@ -129,6 +129,7 @@ type havocProv struct {
 	modified  map[string]bool
 	all       bool // everything modified (unknown call in the loop)
 	startN    int  // unit fresh-name counter when the loop was entered
+	startLine int  // length of the unit's script when the loop was entered
 	frameKeys map[string]bool
 }
 
@@ -218,6 +219,18 @@ func (p *havocProv) finalize(u *Unit, modified map[string]bool, all bool) {
 	p.modified = modified
 	p.all = all
 	p.finalized = true
+	// what is emitted here are facts about the loop-header state that hold by construction (what
+	// the body does not modify keeps its value): obligations generated inside the body, i.e.
+	// before this point of the script, may use them
+	n0 := len(u.lines)
+	defer func() {
+		if u.lateFrom == nil {
+			u.lateFrom = map[int]int{}
+		}
+		for i := n0; i < len(u.lines); i++ {
+			u.lateFrom[i] = p.startLine + 1 // usable by every obligation created after the loop was entered
+		}
+	}()
 	for _, k := range sortedKeys(p.cache) {
 		if all && !threadLocalKey(k) {
 			continue
